@@ -185,9 +185,25 @@ def write_config(root, cfg, names, probe):
         lines.append("template-data:")
         for k, v in sorted(td.items()):
             lines.append("  %s: %s" % (k, json.dumps(v)))
-    lines += ["packages:", "  %s:" % cfg["src_path"], "    interfaces:"]
+    rep = cfg.get("replace") or {}
+
+    def rep_lines(rules, ind):
+        out = [ind + "replace-type:"]
+        last = None
+        for opath, otype, npath, ntype in sorted(rules):
+            if opath != last:
+                out.append(ind + "  %s:" % opath)
+                last = opath
+            out += [ind + "    %s:" % otype, ind + "      pkg-path: %s" % npath, ind + "      type-name: %s" % ntype]
+        return out
+    lines += ["packages:", "  %s:" % cfg["src_path"]]
+    if rep.get("package"):
+        lines += ["    config:"] + rep_lines(rep["package"], "      ")
+    lines += ["    interfaces:"]
     for n in names:
         lines.append("      %s:" % n)
+        if rep.get("interface", {}).get(n):
+            lines += ["        config:"] + rep_lines(rep["interface"][n], "          ")
     (root / ".mockery.yml").write_text("\n".join(lines) + "\n")
     out_dir = root / (src if pl != "separate" else "mocks/" + src)
     return out_dir, fn, pkg
@@ -509,6 +525,31 @@ def corpus_module():
             "src": {"path": gen_pkgs.MOD + "/src", "name": "src"}, "corpus": True}
 
 
+def replace_module():
+    """The replace-type parameter: a foreign named type that is the ONLY use of its package in the output file, and one
+    whose package is used elsewhere too, mapped to a type of another package and to a local type."""
+    orig, repl = gen_pkgs.MOD + "/ext/orig", gen_pkgs.MOD + "/ext/repl"
+    files = {
+        "ext/orig/types.go": "package orig\n\ntype Only struct{ A int }\ntype Shared struct{ B int }\ntype Other struct{ C int }\n",
+        "ext/repl/types.go": "package repl\n\ntype New struct{ A int }\ntype New2 struct{ B int }\n",
+        "src/src.go": "package src\n\nimport \"%s\"\n\ntype Local struct{ X int }\n\n"
+                      "type RSole interface {\n\tGet(o orig.Only, n int) error\n\tEach(os ...int) (orig.Only, error)\n}\n\n"
+                      "type RResult interface {\n\tMake() orig.Only\n\tTake(orig.Only)\n}\n\n"
+                      "type RShared interface {\n\tPut(s orig.Shared, o orig.Other) (orig.Shared, error)\n}\n" % orig}
+    src = gen_pkgs.MOD + "/src"
+    variants = [
+        {"names": ["RSole", "RResult"], "replace": {"package": [[orig, "Only", repl, "New"]]}, "what": "only use -> foreign, package level"},
+        {"names": ["RSole"], "replace": {"interface": {"RSole": [[orig, "Only", src, "Local"]]}}, "what": "only use -> local, interface level"},
+        {"names": ["RShared", "RSole"], "replace": {"interface": {"RShared": [[orig, "Shared", repl, "New2"]]}}, "what": "used elsewhere -> foreign, interface level"},
+        {"names": ["RSole", "RResult"], "replace": {"interface": {"RSole": [[orig, "Only", repl, "New"]], "RResult": [[orig, "Only", src, "Local"]]}},
+         "what": "only use -> foreign and local, interface level"},
+        {"names": ["RShared"], "replace": {"package": [[orig, "Shared", src, "Local"], [orig, "Other", repl, "New"]]}, "what": "all uses -> local and foreign, package level"},
+    ]
+    return {"files": files, "ifaces": [], "static_names": ["RSole", "RResult", "RShared"], "std": [], "mod": gen_pkgs.MOD,
+            "ext": [{"path": orig, "name": "orig", "alias": ""}, {"path": repl, "name": "repl", "alias": ""}],
+            "src": {"path": src, "name": "src"}, "corpus": True, "replace_variants": variants}
+
+
 GO_KEYWORDS = ["break", "default", "func", "interface", "select", "case", "defer", "go", "map", "struct", "chan", "else", "goto", "package",
                "switch", "const", "fallthrough", "if", "range", "type", "continue", "for", "import", "return", "var"]
 # the reserved list of template/var.go on the pinned tree = coq/Gen/Skeleton.v reserved_names (the specification)
@@ -607,6 +648,25 @@ def make_configs(rng, modules, thorough):
     cfgs = []
     for k, m in enumerate(modules):
         combos = [(t, f, p) for t in TEMPLATES for f in FORMATTERS for p in PLACEMENTS]
+        if m.get("replace_variants"):
+            # replace-type: both templates x all three formatters; variants and placements rotate (thorough: everything).
+            # A replaced mock does not implement the interface any more, so matryer runs with skip-ensure.
+            vs = m["replace_variants"]
+            off = rng.randrange(len(vs))
+            n = 0
+            for ti, t in enumerate(TEMPLATES):
+                for fi, f in enumerate(FORMATTERS):
+                    picks = range(len(vs)) if thorough else [(off + ti + 2 * fi) % len(vs), (off + ti + 2 * fi + 2) % len(vs)]
+                    for vi in picks:
+                        for p in (PLACEMENTS if thorough else [PLACEMENTS[(n + off) % 3]]):
+                            n += 1
+                            o = ({"unroll-variadic": bool(n % 2)} if t == "testify"
+                                 else {"skip-ensure": True, "stub-impl": bool(n % 2), "with-resets": bool(n % 3 == 0)})
+                            cfgs.append({"module": m, "files": m["files"], "template": t, "formatter": f, "placement": p, "opts": o,
+                                         "filename": "mocks_test.go" if n % 2 else "mocks.go", "src_name": m["src"]["name"],
+                                         "src_path": m["src"]["path"], "pkgnames": pkgnames_of(m), "stream": "main",
+                                         "only_names": list(vs[vi]["names"]), "replace": vs[vi]["replace"], "replace_what": vs[vi]["what"]})
+            continue
         if m.get("gennames"):
             # one output file per chunk of interfaces (the Coq evaluation is quadratic in the size of a file); every type
             # name meets both templates; placements, formatters and option sets rotate over the chunks (thorough: all
@@ -759,6 +819,8 @@ def coq_verdict(ctx, term, name):
 def describe(cfg, res=None):
     d = {"template": cfg["template"], "formatter": cfg["formatter"], "placement": cfg["placement"], "template-data": cfg["opts"],
          "filename": cfg.get("filename"), "stream": cfg["stream"]}
+    if cfg.get("replace"):
+        d["replace-type"] = cfg.get("replace_what")
     if res is not None:
         d.update(interfaces=res.get("names"), stage=res.get("stage"), errors=res.get("errors", [])[:8], excluded=res.get("excluded"))
     return d
@@ -825,6 +887,7 @@ def check(ctx, only=None):
             modules.insert(0, cm)
         reserved_code = reserved_from_code(ctx.tree)
         modules.insert(1 if cm else 0, gennames_module(reserved_code))
+        modules.insert(1 if cm else 0, replace_module())
         cfgs = make_configs(ctx.rng, modules, thorough)
         if envflag("C01_GOMOD_SPELLINGS"):           # owned by C09 (DESIGN row 3); off by default
             for k, c in enumerate(cfgs):
@@ -848,7 +911,8 @@ def check(ctx, only=None):
             "config": describe(c, r), "interfaces": names, "errors": small.get("errors", [])[:12], "mockery_log": small.get("mockery_log"),
             "sources": sources_of(c), "generated": (small.get("source") or "")[:20000],
             "case": {"files": sources_of(c), "template": c["template"], "formatter": c["formatter"], "placement": c["placement"], "opts": c["opts"],
-                     "filename": c.get("filename"), "src_name": c["src_name"], "src_path": c["src_path"], "pkgnames": c["pkgnames"], "interfaces": names}})
+                     "filename": c.get("filename"), "src_name": c["src_name"], "src_path": c["src_path"], "pkgnames": c["pkgnames"], "interfaces": names,
+                     "replace": c.get("replace")}})
         ctx.violation(rp)
 
     # ---------------- translator + correspondence inside Coq
@@ -1014,5 +1078,5 @@ def replay(ctx, path):
     k = d["case"]
     cfg = {"id": 0, "files": k["files"], "template": k["template"], "formatter": k["formatter"], "placement": k["placement"], "opts": dict(k["opts"]),
            "filename": k.get("filename") or "mocks_test.go", "src_name": k["src_name"], "src_path": k["src_path"], "pkgnames": k["pkgnames"],
-           "stream": "main", "candidates": list(k["interfaces"] or []), "outside": {}, "no_probe": True}
+           "stream": "main", "candidates": list(k["interfaces"] or []), "outside": {}, "no_probe": True, "replace": k.get("replace")}
     check(ctx, only=[cfg])
